@@ -123,6 +123,9 @@ pub fn search(r: &mut Report, tier: &str, _seed: u64) {
         let (d1, d2) = (Dot::new(a, n), Dot::new(b, m));
         let want = if a == b { Some(n.cmp(&m)) } else { None };
         r.case("dot.partial_cmp", d1.partial_cmp(&d2) == want, &|| format!("{:?} {:?}", d1, d2), &|| String::new());
+        r.case("dot.eq", (d1 == d2) == (a == b && n == m) && (d1 != d2) == !(a == b && n == m), &|| format!("{:?} {:?}", d1, d2), &|| String::new());
+        let mut d3 = d1.clone(); d3.apply_inc();
+        r.case("dot.inc", d1.inc() == Dot::new(a, n + 1) && d3 == Dot::new(a, n + 1), &|| format!("{:?}", d1), &|| format!("inc {:?} apply_inc {:?}", d1.inc(), d3));
     } } } }
     let v: VClock<u8> = Dot::new(1u8, 2).into();
     r.case("from_dot", arr(&v) == Some([0, 2, 0]), &|| "Dot(1,2)".into(), &|| format!("{:?}", v));
